@@ -262,6 +262,18 @@ def body(chk):
     chunks = [idx[k:k + 30] for k in range(0, len(idx), 30)] + [['symbolic']]
     ncomp = 60 if chk.quick else 600
     combos = [[chk.rng.randrange(n) for _ in range(chk.rng.choice([2, 3, 4]))] for _ in range(ncomp)]
+    # state-variable (and function) names are unique within a file -- the property's precondition: of the members with a FIXED name
+    # (`var named X1 ..`) a composed file keeps the first one of each name
+    labels_ = [l for l, _ in cases(chk)]
+    fixed_name = lambda l: l.split()[2] if l.startswith(('var named', 'fn named')) else None
+    for combo in combos:
+        seen_names = set()
+        for k in list(combo):
+            nm = fixed_name(labels_[k])
+            if nm is not None:
+                if nm in seen_names:
+                    combo.remove(k)
+                seen_names.add(nm)
     chunks += [['composed', combos[k:k + 15]] for k in range(0, ncomp, 15)]
     chk.parallel(job, chunks)
     rep = sum(j['paths_with_reports'] for j in chk.extra_lists.get('per_job', []))
